@@ -48,6 +48,11 @@ Fixpoint c12_list_ops (fuel : nat) (ops : list Z) (l : list N) : list Z * list N
   end.
 
 (* ops on a credential: 0 i v / 1 i v = write (two public routes, same logic), 2 i = entry *)
+Fixpoint c12_take_pairs (n : nat) (l : list Z) : list (N * bool) * list Z :=
+  match n, l with
+  | S n', i :: v :: r => let '(ps, rest) := c12_take_pairs n' r in ((Z.to_N i, bz v) :: ps, rest)
+  | _, _ => ([], l)
+  end.
 Fixpoint c12_cred_ops (fuel : nat) (ops : list Z) (c : sl_cred) : list Z * sl_cred :=
   match fuel with
   | O => ([], c)
@@ -59,6 +64,15 @@ Fixpoint c12_cred_ops (fuel : nat) (ops : list Z) (c : sl_cred) : list Z * sl_cr
                       | Ok StValid => 10 | Ok StRevoked => 11 | Ok StSuspended => 12
                       | Err e => c12_err_code e | Panic => -777 end in
           let '(o, cf) := c12_cred_ops fuel' r c in (here :: o, cf)
+        else if (t =? 3) || (t =? 4) then
+          (* i = number of pairs *)
+          let '(pairs, r1) := c12_take_pairs (Z.to_nat i) r in
+          if t =? 3 then let '(o, cf) := c12_cred_ops fuel' r1 (sl_update_best_effort c pairs) in (0 :: o, cf)
+          else match sl_update_all c pairs with
+               | (c', Ok _) => let '(o, cf) := c12_cred_ops fuel' r1 c' in (0 :: o, cf)
+               | (c', Err e) => let '(o, cf) := c12_cred_ops fuel' r1 c' in (c12_err_code e :: o, cf)
+               | (_, Panic) => ([-777], c)
+               end
         else
           match r with
           | v :: r' =>
